@@ -366,4 +366,10 @@ HARNESSES.append(
             bounds={"as H11-worker": "on the real Redis broker/consumer (topic prefix filter, prefetch buffer) over the fake server"},
             functions=["connections/redis/consumer.py:_RedisConsumer.backgroud_consume"], covers=["workers-ran", "foreign-message"],
             stubs=["fake Redis server"]))
+from harness.c10 import h10_plugin  # noqa: E402
+
+HARNESSES.append(
+    Harness(name="H11-plugin", scenario=h10_plugin,
+            bounds={"as H10-plugin": "run-on-enqueue testing mode: a job whose name is known but whose queue its actor does not serve starts no worker and is not run"},
+            functions=["testing/modifiers.py:RunWorkerOnEnqueueModifier"], covers=["plugin-ran"]))
 ASSUMPTIONS = ["in-memory broker; Redis prefix filter exactness is proved under C07 (H07-names-injective: topic-prefix-filter-exact); RabbitMQ reject-requeue loop is server behaviour"]
